@@ -2123,14 +2123,19 @@ class Rule(metaclass=LogicalType):
         options = context.options
 
         for _key, _val in value.items():
-            with context.enter(route=f"{_key}<key>") as key_context:
+            try:
+                key_route = f"{_key}<key>"
+            except Exception:  # noqa
+                # a key whose text cannot be made (an int beyond the digit limit, a raising __str__)
+                key_route = f"{type(_key).__name__}<key>"
+            with context.enter(route=key_route) as key_context:
                 try:
                     key = key_context.transformer.apply(
                         _key, key_type, func=key_transformer
                     )
                 except Exception as e:
                     error = exc.ParseError(
-                        item=f"{_key}<key>", value=_key, type=key_type, origin_exc=e
+                        item=key_route, value=_key, type=key_type, origin_exc=e
                     )
                     if options.invalid_keys == options.EXCLUDE:
                         context.collect_waring(error.formatted_message)
